@@ -122,6 +122,14 @@ func main() {
 	defer o.Close()
 	root := rng.New(*seed)
 	stats := map[string]*stat{}
+	if !*probe && (*only < 0 || *only >= 1000000) {
+		// corpus: the near-cusp quadratic of DESIGN par. 4 (replayed against the real code on every run)
+		for k, cc := range corpus {
+			if *only < 0 || *only == 1000000+k {
+				emitBezier(o, 1000000+k, cc.bc, cc.tol)
+			}
+		}
+	}
 	for i := 0; i < *n; i++ {
 		if *only >= 0 && i != *only {
 			continue
@@ -301,4 +309,13 @@ func roundParams(ts []float64) []float64 {
 		}
 	}
 	return out
+}
+
+var corpus = []struct {
+	bc  bcase
+	tol float64
+}{
+	{bcase{"corpus-nearcusp-quad", []P{{X: 0, Y: 0}, {X: 10, Y: 0.001}, {X: 0, Y: 0.002}}}, 0.01},
+	{bcase{"corpus-narrow-arch-quad", []P{{X: -2, Y: 0.375}, {X: -1.875, Y: -7.75}, {X: -1.75, Y: 0.375}}}, 0.1},
+	{bcase{"corpus-cusp-cube", []P{{X: 1, Y: -2.5}, {X: 11, Y: 7.5}, {X: 1, Y: 7.5}, {X: 11, Y: -2.5}}}, 0.001},
 }
